@@ -21,3 +21,29 @@ def disjuncts(e):
     if e.get("k") == "bin" and e["op"] == "||":
         return disjuncts(e["l"]) + disjuncts(e["r"])
     return [e]
+
+
+def bind(fn, name, init_pat):
+    """Renamed-local tolerance for rules that look a local up by name: if no local `name` exists,
+    the local whose definition matches `init_pat` takes its place (committed for the function)."""
+    if fn is None:
+        return name
+    fn.defs(0)
+    if name in fn._names.values():
+        return name
+    if name in getattr(fn, "_renames", {}):
+        return fn._renames[name]
+    m = M(fn)
+    for pt, e in sorted(fn.points()):
+        for n in own_walk(e):
+            tgt = None
+            if n.get("k") == "decl" and n.get("init") is not None and m.match(init_pat, n["init"]):
+                tgt = n["name"]
+            elif n.get("k") == "assign" and n["op"] == "=" and strip(n["l"]).get("k") == "ref" and m.match(init_pat, n["r"]):
+                tgt = strip(n["l"])["name"]
+            if tgt:
+                if not hasattr(fn, "_renames"):
+                    fn._renames = {}
+                fn._renames[name] = tgt
+                return tgt
+    return name
